@@ -591,7 +591,8 @@ class PreferenceAddition:
                             + var_part
                             + var_vote[i+offset+1:]
                         )
-                        offset += len(var_part)
+                        # one item was replaced by len(var_part) items
+                        offset += len(var_part) - 1
                     # The variant may coincide with another ballot or variant.
                     new_votes[var_vote] = (
                         new_votes.get(var_vote, 0) + n_variant_votes
